@@ -1032,8 +1032,9 @@ pub fn run(ctx: &mut Ctx) {
     }
     // the limits of the result types, every type
     for c in [127u64, 128, 255, 256, 32767, 32768, 65535, 65536] {
-        for d in 0..=6u64 {
-            nat_all(ctx, c + d - 3, true, "type-limit");
+        let w = ctx.scale(3, 40);
+        for d in 0..=2 * w {
+            nat_all(ctx, c + d - w, true, "type-limit");
         }
     }
     let around = ctx.scale(64, 64);
@@ -1050,8 +1051,8 @@ pub fn run(ctx: &mut Ctx) {
         }
     }
     // beyond: the real encoder takes any usize
-    for p in [33u32, 34, 40, 47, 48, 63] {
-        for d in 0..4u64 {
+    for p in 33u32..=63 {
+        for d in 0..ctx.scale(2, 10) {
             nat_all(ctx, (1u64 << p) + d, false, "large-real-encoder");
             nat_all(ctx, (1u64 << p) - 1 - d, false, "large-real-encoder");
         }
@@ -1223,12 +1224,14 @@ pub fn run(ctx: &mut Ctx) {
         do_wr(ctx, &ops, "sequence");
     }
     // every single op at every alignment
-    for a in 0..8usize {
-        for op in [WOp::Bit(true), WOp::Be(0x1ff, 9), WOp::Be(u64::MAX, 64), WOp::Be(5, 0), WOp::Bytes(vec![0xa5, 0x5a]), WOp::Nat(65536), WOp::Flush] {
-            let mut ops = vec![WOp::Bit(true); a];
-            ops.push(op);
-            ops.push(WOp::Flush);
-            do_wr(ctx, &ops, "single-op");
+    for rep in 0..ctx.scale(1, 10) {
+        for a in 0..8usize {
+            for op in [WOp::Bit(true), WOp::Be(0x1ff, 9), WOp::Be(u64::MAX, 64), WOp::Be(5, 0), WOp::Bytes(vec![0xa5, 0x5a]), WOp::Nat(65536), WOp::Flush] {
+                let mut ops: Vec<WOp> = (0..a).map(|_| WOp::Bit(rep == 0 || ctx.rng.bool())).collect();
+                ops.push(op);
+                ops.push(WOp::Flush);
+                do_wr(ctx, &ops, "single-op");
+            }
         }
     }
 
@@ -1265,7 +1268,7 @@ pub fn run(ctx: &mut Ctx) {
 
     // ---- 8. negative bounds of the signed result types: everything is above the bound
     //         (oracle only: the model's bounds are naturals)
-    for n in (1u64..=40).chain([100, 127, 30000]) {
+    for n in (1u64..=ctx.scale(40, 600)).chain([100, 127, 30000]) {
         let bytes = pack(&enc_nat(n as u128));
         let r = catch(|| {
             let a = BitIter::from(&bytes[..]).read_natural::<i32>(Some(-1)).is_err();
